@@ -123,6 +123,38 @@ theorem heartbeat_under_faults (c : Cfg) (l : Local) (file : File) (din : Option
      r.l.state = l.state ∧ r.l.tokens = l.tokens ∧ r.l.cur = l.cur ∧ r.file = file ∧ commit din r .failCommit = din) :=
   ⟨PfC09.heartbeat_rejected_is_noop, PfC09.heartbeat_commit_rejected⟩
 
+/-- A heartbeat (either kind, whatever the store then does with the write) that finds the own entry in the ring
+publishes the tokens the RING records — not the remembered ones. Hence a restarted lifecycler that has not yet
+loaded its tokens (died JOINING) does not wipe them by heartbeating before the join timer, and a LEAVING
+instance whose tokens another instance has claimed does not write them back. -/
+theorem heartbeat_keeps_ring_tokens (c : Cfg) (l : Local) (file : File) (din : Option Desc) (now : Int) (gen : Gen)
+    (fault : Fault) (e b : Inst) (d' : Desc) (he : Desc.get? (din.getD []) c.id = some e)
+    (h : (step c l file din .heartbeat now gen fault).out = .write d') (hb : Desc.get? d' c.id = some b) :
+    b.tokens = e.tokens :=
+  (PfC09.heartbeat_keeps_ring_tokens he h hb).1
+
+/-- `Lifecycler.changeState` remembers the requested state before it writes: whether the store accepts the write,
+rejects the call or rejects the commit, the lifecycler is in the new state afterwards (tokens untouched) and
+EVERY later heartbeat the store accepts publishes that state. So a rejected JOINING→ACTIVE write at the end of the
+observe period is repaired by the next heartbeat (ACTIVE is reached), and a rejected ACTIVE→LEAVING write at
+shutdown by the next heartbeat of `stopping()`. -/
+theorem state_survives_rejected_write (c : Cfg) (l : Local) (file : File) (din : Option Desc) (s : State) (now : Int)
+    (gen : Gen) (fault : Fault) (hk : c.kind = .LC) (hs : l.started = true) (hal : allowed l.state s = true) :
+    let r := step c l file din (.changeState s) now gen fault
+    r.l.state = s ∧ r.l.started = true ∧ r.l.tokens = l.tokens ∧
+    ∀ (din' : Option Desc) (now' : Int) (gen' : Gen), ∃ d' b,
+      (step c r.l r.file din' .heartbeat now' gen' .none).out = .write d' ∧ Desc.get? d' c.id = some b ∧ b.state = s :=
+  PfC09.state_survives_rejected_write hk hs hal
+
+example : -- non-vacuity: JOINING→ACTIVE rejected, the ring still shows JOINING, the next heartbeat publishes ACTIVE with the ring's tokens
+    let c : Cfg := { id := "a", numTokens := 1, observe := true }
+    let l : Local := { started := true, state := .JOINING, tokens := [4] }
+    let d : Desc := [{ id := "a", ts := 5, state := .JOINING, tokens := [4] }]
+    let r := step c l .absent (some d) (.changeState .ACTIVE) 6 (fun _ _ => []) .failCommit
+    commit (some d) r .failCommit = some d ∧
+    (step c r.l r.file (some d) .heartbeat 7 (fun _ _ => []) .none).out = .write [{ id := "a", ts := 7, state := .ACTIVE, tokens := [4] }] := by
+  decide
+
 /-- `ClaimTokensFor` whose CAS fails — the store rejects the call, the ring is empty, or the commit is rejected —
 claims nothing and forgets nothing: remembered tokens and tokens file are as before, the store is unchanged.
 (Fixed in /repo 392dd5f. Before the fix the closure called `setTokens(nil)` on a failed CAS:
